@@ -78,7 +78,7 @@ if __name__ == "__main__":
 from vlib import core, twin
 
 LEVEL = "model_checking"
-BUDGET = {"quick": 600, "thorough": 7200}
+BUDGET = {"quick": 1200, "thorough": 7200}
 BATCH = 1500
 
 HARNESS = os.path.join(core.VERIF, "harness")
